@@ -56,3 +56,21 @@ func syncCommitteeForSlot(spec *common.Spec, epc *common.EpochsContext, slot com
 	}
 	return epc.NextSyncCommittee
 }
+
+// checkAttestationSlotWindow checks the propagation window of an attestation or aggregate for the given slot,
+// with MAXIMUM_GOSSIP_CLOCK_DISPARITY margin in time.
+// Before deneb: attestation.data.slot + ATTESTATION_PROPAGATION_SLOT_RANGE >= current_slot >= attestation.data.slot.
+// Since deneb: attestation.data.slot <= current_slot, and its epoch is the current or previous epoch.
+func checkAttestationSlotWindow(spec *common.Spec, slotAfter func(delta time.Duration) common.Slot, slot common.Slot) error {
+	attEpoch := spec.SlotToEpoch(slot)
+	if attEpoch < spec.DENEB_FORK_EPOCH {
+		return CheckSlotSpan(slotAfter, slot, ATTESTATION_PROPAGATION_SLOT_RANGE)
+	}
+	if maxSlot := slotAfter(MAXIMUM_GOSSIP_CLOCK_DISPARITY); slot > maxSlot {
+		return fmt.Errorf("slot %d is too new, maximum slot is %d", slot, maxSlot)
+	}
+	if minCurrentEpoch := spec.SlotToEpoch(slotAfter(-MAXIMUM_GOSSIP_CLOCK_DISPARITY)); attEpoch+1 < minCurrentEpoch {
+		return fmt.Errorf("slot %d is in epoch %d, which is neither current epoch %d nor the one before it", slot, attEpoch, minCurrentEpoch)
+	}
+	return nil
+}
